@@ -16,17 +16,22 @@ LEVEL_TEXT = {
             "knob, 1..8192), five store algorithms, restarts; cid/size against hashlib, bytes re-read after every later step. "
             "Evidence over a sample of histories, not proof."),
     "C02": ("exploration", "4/C02", "Histories on one instance mixing store_object with every additional/checksum algorithm "
-            "spelling and get_hex_digest; key set and values against hashlib after every call, restarts in between."),
+            "spelling and get_hex_digest; key set and values against hashlib after every call, restarts in between; plus the "
+            "multi-task scenarios with algorithm arguments (a history that is linearizable except for a digest map is a C02 violation)."),
     "C03": ("exploration", "4/C03", "Histories of store/tag/delete/delete_if_invalid over small alphabets; a re-bind of a bound "
-            "pid must raise a documented already-exists class and leave alpha(directory) restricted to bindings unchanged."),
+            "pid must raise a documented already-exists class and leave alpha(directory) restricted to bindings unchanged; every "
+            "history of <= 3 calls over a 13-call menu is enumerated; multi-task scenarios attribute 'a bound pid bound again' to C03."),
     "C04": ("exploration", "4/C04", "Histories biased to shared content; after every step every bound pid is retrieved and "
-            "compared byte for byte; object removal exactly when the model's reference list becomes empty."),
+            "compared byte for byte; object removal exactly when the model's reference list becomes empty; short histories "
+            "enumerated; multi-task scenarios attribute 'a referenced object is missing' to C04."),
     "C05": ("exploration", "4/C05", "alpha(directory) == reference model after every call of every history: both indexes, "
-            "object set, no temp file, no *_delete marker, no empty list."),
+            "object set, no temp file, no *_delete marker, no empty list; every history of <= 3 calls over a 13-call menu is "
+            "enumerated (complete for that menu), longer ones are random; multi-task scenarios attribute unexplained reference files to C05."),
     "C06": ("exploration", "4/C06", "Validated store_object and delete_if_invalid_object over 12 algorithms x spellings x "
             "checksum case x size, in states where the content is absent / unreferenced / referenced; verdict against hashlib."),
     "C11": ("exploration", "4/C11", "Metadata histories over colliding (pid, format) pairs; model map equality and API look-ups "
-            "after every call."),
+            "after every call; short histories enumerated; plus concurrent calls on two DIFFERENT pids whose "
+            "(pid, format) concatenations coincide."),
     "C16": ("exploration", "4/C16", "Every history is executed in multiprocessing mode and, on any disagreement, re-executed "
             "in threading mode; the C07/C12 scenarios run through the multiprocessing code paths with tasks standing for "
             "forked processes (fork-view of the store, manager-list operations as yield points)."),
